@@ -53,9 +53,9 @@ def run(ctx):
     ctx.traces -= res["traces"]
     ctx.validate_traces("Refs", base, nsh, CONSTS, "C12", head=HEAD, workers=1, parallel=16)
     traceCands = list(ctx.candidates)
-    oks = tracefam.batch_confirmer(ctx, "Refs", regen, CONSTS, HEAD)(traceCands) if traceCands else []
+    confirmedTrace = ctx.keep_confirmed_batch(traceCands, tracefam.batch_confirmer(ctx, "Refs", regen, CONSTS, HEAD))
     conf = confirm_with(ctx, "refs")
-    ctx.candidates = [c for c in modelCands if conf(c)] + [c for c, ok in zip(traceCands, oks) if ok]
+    ctx.candidates = ctx.keep_confirmed(modelCands, conf) + confirmedTrace
     ctx.exhaustive = True
     ctx.rule = ("model: per label family (case, whitespace, sharp-s, dotted-I, NBSP, escaped brackets) every document of <= 3/4 items with <= 2/3 definitions "
                 "(plain / in quote / in list item) and <= 2 uses x 3 reference styles; closure clause: label-rich templates (24 labels squared x 5 styles x "
